@@ -95,6 +95,7 @@ def histories(ctx):
     hs += hist(ctx, "index", 4 if q else 5, catalog=cat)
     hs += hist(ctx, "eq", 2 if q else 3)
     hs += hist(ctx, "eq1", 3)
+    hs += hist(ctx, "eq-grow", 3 if q else 4)
     hs += hist(ctx, "loop", 3 if q else 4)
     for mode, ln, n in [("index", 9, 150 if q else 1500), ("eq", 6, 150 if q else 1500), ("loop", 8, 100 if q else 800)]:
         hs += hist(ctx, mode, ln, simulate=n, seed=ctx.seed * 10 + ln)
